@@ -26,6 +26,9 @@ pub enum Malform {
     WeightsOverflow,
     ThresholdZero,
     ThresholdTotalPlus1,
+    /// an otherwise well-formed set whose signers vector holds one more element that is no signer (kind, position:
+    /// see `BuiltSet::junk`); signed over, hashed and submitted exactly like that
+    JunkEntry(u8, u8),
 }
 
 #[derive(Clone, Debug, Serialize, Deserialize, PartialEq, Eq)]
@@ -87,6 +90,7 @@ fn malform() -> impl Strategy<Value = Malform> {
         Just(Malform::WeightsOverflow),
         Just(Malform::ThresholdZero),
         Just(Malform::ThresholdTotalPlus1),
+        (0u8..4, 0u8..9).prop_map(|(k, p)| Malform::JunkEntry(k, p)),
     ]
 }
 
@@ -189,6 +193,7 @@ pub fn apply(g: &SetGen, m: Malform, nonce: u8) -> BuiltSet {
             b.threshold = b.threshold.max(1);
         }
         Malform::ThresholdZero => b.threshold = 0,
+        Malform::JunkEntry(k, p) => b.junk = Some((k, p)),
         Malform::ThresholdTotalPlus1 => match b.total_weight().and_then(|t| t.checked_add(1)) {
             Some(t) => b.threshold = t,
             None => b.threshold = 0,
@@ -301,6 +306,11 @@ impl Property for C03 {
             Malform::WeightsOverflow,
             Malform::ThresholdZero,
             Malform::ThresholdTotalPlus1,
+            Malform::JunkEntry(0, 1),
+            Malform::JunkEntry(0, 0),
+            Malform::JunkEntry(1, 1),
+            Malform::JunkEntry(2, 9),
+            Malform::JunkEntry(3, 1),
         ] {
             v.push(Case::History {
                 retention: 1,
